@@ -86,6 +86,9 @@ func (l *genericFileSessionLoader) Store(s *Session) error {
 	file.writeSession(s)
 	data, _ := json.Marshal(file)
 
+	// file is changing, so cached session is not actual anymore, even if modification time stays the same
+	l.cached = nil
+
 	return ioutil.WriteFile(l.path, data, 0600)
 }
 
